@@ -172,6 +172,11 @@ def run(check):
     r_o.violate('RelayRule.matches', 'carbon.relayrules:RelayRule', None, 'RelayRule.matches does not evaluate self.condition(metric)',
                 construct='matches')
 
+  # ------------------------------------------------------------------ which names are inputs of an aggregate
+  r_m = check.rule('R-C16-rule-applies', 1, 'a name is an input of an aggregate only if the rule pattern matches the whole name')
+  from .c08 import rule_match_anchored
+  rule_match_anchored(check, cx, r_m)
+
   # ------------------------------------------------------------------ aggregate key
   r_a = check.rule('R-C16-aggregate-key', 3, 'every input of an aggregate is routed to all hash destinations of the aggregate\'s name')
   ar = repo.cls('carbon.routers', 'AggregatedConsistentHashingRouter')
